@@ -42,6 +42,14 @@ type NameProviderFunc func(rand *mathrand.Rand, baseName string) string
 func Obfuscate(rand *mathrand.Rand, file *ast.File, info *types.Info, linkStrings map[*types.Var]string, nameFunc NameProviderFunc) *ast.File {
 	or := newObfRand(rand, file, nameFunc)
 	pre := func(cursor *astutil.Cursor) bool {
+		if expr, ok := cursor.Node().(ast.Expr); ok {
+			// A constant expression which is not itself a string, such as len("foo")
+			// or len([3]byte{1, 2, 3}), is evaluated by the compiler and may sit where
+			// only a constant is allowed, like an array length; leave it alone entirely.
+			if tv := info.Types[expr]; tv.Value != nil && tv.Type != types.Typ[types.String] {
+				return false
+			}
+		}
 		switch node := cursor.Node().(type) {
 		case *ast.FuncDecl:
 			// Obfuscating literals can push the stack frame over the //go:nosplit limit,
